@@ -125,3 +125,10 @@ reg("C11",
     level_note="Not driven: NetCDF-4, zlib compression and zarr (no netCDF4/h5netcdf/zarr in this sandbox; only the scipy NetCDF-3 backend), so to_netcdf is called with ncformat=NETCDF3_64BIT, compress=False. Frequencies are generated on the text resolution of the formats (5 decimals) so that widths parsed from the file equal those written.",
     rule="case = (format/layout x number of positions x stored direction order x time count class x options) x spectrum kind (normal, tiny, huge, zero, nan); distinct = distinct keys; every compared spectrum is an evaluation",
     must_observe=["roundtrip_swan", "roundtrip_octopus", "roundtrip_json", "roundtrip_netcdf", "roundtrip_ww3", "roundtrip_funwave"])
+
+reg("C17",
+    technique="runtime purity monitor: deep snapshots (bytes, dtype, strides, dim order, coords, attrs, encodings, base buffers, dask graphs) of every argument object before a call and after it returns or raises",
+    level_text="Every sampled public operation - accessor statistics/transforms/partitions on numpy-backed, view-of-caller-buffer and dask-backed arrays (through both accessors), the three selection methods with list/array queries and precomputed station coordinates, construction helpers with DataArray parameters and kwargs dictionaries, reader helpers (read_dataset / from_*) on in-memory native datasets, and the file writers - is wrapped by a monitor that fingerprints all argument objects before and after; any difference is a violation. Held = on the calls observed (counts per operation in the evidence).",
+    level_note="Trusted: vf/monitor.snapshot (sha1 of contiguous bytes + metadata). A mutation that is undone before the call returns is invisible by design (the property speaks of the state after return/raise).",
+    rule="case = (operation x backing [numpy|view|dask] x accessor kind) | (selection method x conventions x query container x precomputed) | (constructor x coord container) | (model x entry x backing) | writer; distinct = distinct keys",
+    must_observe=["accessor:hs", "accessor:ptm1", "accessor:smooth", "sel:nearest", "sel:idw", "sel:bbox", "construct:construct_partition", "reader:ww3", "reader:ncswan", "reader:wwm", "writer:swan", "writer:ww3", "writer:netcdf", "writer:octopus"])
